@@ -17,7 +17,7 @@ TITLE = "Transects cover exactly the part of the path inside the model, in path 
 MC = {"quick": [("MC_C18", "MC_C18.cfg", 8)], "thorough": [("MC_C18", "MC_C18_thorough.cfg", 16)]}
 TRACE = ("Trace_C18", "Trace_C18.cfg")
 REQUIRED = ["Transect", "FreeTransect", "free-with-segments", "prepared-again", "misses-model", "along-shared-edge", "holes", "starts-inside", "starts-outside", "re-enters-cell",
-            "several-vertices", "diagonal", "cf1d", "cf2d", "shoc_simple", "shoc_standard", "arakawa", "ugrid"]
+            "several-vertices", "segments-meet", "bends-inside-cell", "diagonal", "cf1d", "cf2d", "shoc_simple", "shoc_standard", "arakawa", "ugrid"]
 RULE = ("one case = one dataset whose cells are axis-aligned lattice rectangles (every convention incl. quad meshes, with holes) "
         "and a batch of seeded polylines of 2-5 vertices on the quarter-cell lattice with axis-parallel or 45-degree segments: "
         "starting / ending inside or outside, crossing holes, leaving and re-entering cells, running along shared cell edges, "
@@ -134,6 +134,12 @@ def cases(tier: str, seed: int) -> list[dict]:
             # an L and a U shaped path: east-west legs next to north-south legs
             fixed.append([[x0 + 1, y0 + 1], [x1 - 1, y0 + 1], [x1 - 1, y1 - 1]])
             fixed.append([[x0 + 1, y1 - 1], [x0 + 1, y0 + 1], [x1 - 1, y0 + 1], [x1 - 1, y1 - 1]])
+            # round 13: zig-zags with two and more bends inside ONE cell before the path leaves it (a finely sampled track over
+            # a coarse grid), entering from outside, starting inside, and in the next cell along
+            fixed.append([[x0 - 1, y0 + 1], [x0 + 1, y0 + 1], [x0 + 2, y0 + 2], [x0 + 2, y0 + 3], [x0 + 3, y0 + 3], [x0 + 6, y0 + 3]])
+            fixed.append([[x0 + 1, y0 + 3], [x0 + 1, y0 + 1], [x0 + 3, y0 + 1], [x0 + 3, y0 + 2], [x0 + 7, y0 + 2]])
+            fixed.append([[x0 + 2, y0 + 1], [x0 + 5, y0 + 1], [x0 + 6, y0 + 2], [x0 + 7, y0 + 2], [x0 + 7, y0 + 3], [x0 + 6, y0 + 3], [x0 + 6, y0 + 6]])
+            fixed.append([[x1 + 1, y1 - 1], [x1 - 1, y1 - 1], [x1 - 2, y1 - 2], [x1 - 2, y1 - 3], [x1 - 3, y1 - 3], [x1 - 6, y1 - 3]])
             for kp, p in enumerate(fixed):
                 ev.append({"a": "Transect", "path": p, "var": "temp" if kp % 2 == 0 else "fort", "shift": 1000 if kp % 3 != 1 else 0})
             for _ in range(6 if tier == "quick" else 30):
